@@ -18,6 +18,7 @@ CFG = """SPECIFICATION %(spec)s
 CONSTANTS
   MaxRoutes = %(n)d
   MaxGone = %(gone)d
+  MaxBad = %(bad)d
   ObsSel <- %(obs)s
   MaxObs = %(nobs)d
   PatSel <- %(pats)s
@@ -33,11 +34,11 @@ FILES = ["route/common_test.go", "route/c03_test.go"]
 
 
 UNI = {"full": ("MCAllPats", "MCAllPaths"), "core": ("MCCorePats", "MCCorePaths"), "mini": ("MCMiniPats", "MCMiniPaths"),
-       "tiny": ("MCTinyPats", "MCTinyPaths")}
+       "tiny": ("MCTinyPats", "MCTinyPaths"), "two": ("MCTwoPats", "MCTinyPaths")}
 
 
-def cfg(spec, n, uni="full", inv=False, gone=0, nobs=0):
-    return CFG % dict(spec=spec, n=n, gone=gone, obs="MCAllObs" if nobs else "MCNoObs", nobs=nobs, pats=UNI[uni][0], paths=UNI[uni][1], inv=(inv if isinstance(inv, str) else INV) if inv else "")
+def cfg(spec, n, uni="full", inv=False, gone=0, nobs=0, bad=0):
+    return CFG % dict(spec=spec, n=n, gone=gone, bad=bad, obs="MCAllObs" if nobs else "MCNoObs", nobs=nobs, pats=UNI[uni][0], paths=UNI[uni][1], inv=(inv if isinstance(inv, str) else INV) if inv else "")
 
 
 def count_lines(path):
@@ -69,10 +70,11 @@ def run(ctx):
         "the table is what a history of route commands leaves: routes that were added and deleted again (one, thorough two, per table; the three forms of `route del`) must neither serve nor shadow; such tables are built both by NewTable (text) and by NewTableCustom (command list of the custom back end), plain tables alternate between the two builders",
         "requests in flight together: the lines of one table that the generator printed consecutively (all 42 of a random table, fragments of the exhaustive ones) are replayed by 8 goroutines at once on one table with one shared GlobCache; every answer must be the sequential one (the statement quantifies over every request; scheduling is whatever the Go runtime does, so this pass can miss an interleaving - C06 owns the exhaustive treatment)",
         "observers: a table (<=2 routes of the 9-route universe, thorough also the core universe) is installed as the ACTIVE table and read by one (thorough up to four) of Table.String, Table.Dump, GET /api/routes, GET /api/routes?raw before the lookups; the answers after the reads must be those before them (Match_MC!Observe leaves the table unchanged); the web UI page and the metrics side paths are not among the observers",
+        "custom registry back end (registry.backend=custom, non-default): the real poll loop fetches an accepted document (<=2 routes over {none, a.io} x {/, /x, /x/y}) and then a refused one (two valid entries, shortest path first, followed by an unknown command / an add without source / an add without destination); the table in force must stay the accepted one; HTTP errors, timeouts and undecodable JSON of the poll are C02's",
         "one target per route (the service name encodes the route), so the picker plays no role here (C04)",
     ]
     # 1. well-definedness of the declarative choice on the model
-    mcs = [("core<=2", cfg("QSpec", 2, "core", inv=True), 300)]
+    mcs = [("mini<=2", cfg("QSpec", 2, "mini", inv=True), 300)]
     if ctx.thorough:
         mcs = [("tiny<=2 +1 deleted", cfg("QSpec", 2, "tiny", inv=True, gone=1), 600),
                ("full<=1", cfg("QSpec", 1, "full", inv=True), 600), ("core<=2", cfg("QSpec", 2, "core", inv=True), 600),
@@ -94,7 +96,7 @@ def run(ctx):
     cases = os.path.join(ctx.tmp, "c03.cases")
     # "tiny ... +1 deleted": every table of <=2 routes that a history with one added-and-deleted
     # route leaves (the deleted route must neither serve nor shadow)
-    gens = [("full<=1", cfg("Spec", 1, "full"), 300), ("core<=2", cfg("Spec", 2, "core"), 600),
+    gens = [("core<=2", cfg("Spec", 2, "core"), 600),
             ("tiny<=2 +1 deleted", cfg("Spec", 2, "tiny", gone=1), 600),
             ("tiny<=2 read by one observer", cfg("Spec", 2, "tiny", nobs=1), 600)]
     if ctx.thorough:
@@ -176,6 +178,29 @@ def run(ctx):
     ctx.cover("admin", traces_validated_against_impl=as_["lines"], evaluations=as_["lookups"])
     ctx.take_failures(a, "c03-admin")
 
+    # 3d. behind the custom registry back end (Match_MC!RejectDoc): an accepted document, then a
+    #     document of two routes + one invalid entry that is refused; the table in force stays
+    ccases = os.path.join(ctx.tmp, "c03.custom")
+    cg = ctx.tlc("Match_MC", cfg_text=cfg("Spec", 2, "two", bad=2), workers=1, json_sink=ccases, timeout=600)
+    ctx.log("Gen two<=2 + refused document: %d transitions, %d states, %.0fs" % (cg.generated, cg.distinct, cg.wall))
+    if not ctx.need_tlc_ok(cg, "Match Gen refused documents"):
+        return
+    ctx.cover("gen refused", states=cg.distinct, transitions=cg.generated)
+    cu = ctx.gotest("registry/custom", ["registry/custom/c03_test.go"], "^TestVerifC03Custom$", env={"VERIF_IN": ccases}, timeout=900)
+    if not ctx.need_go_ok(cu, "C03 custom back end replay"):
+        return
+    if cu.of_kind("error"):
+        ctx.inconclusive("C03 custom back end replay: %s" % cu.of_kind("error")[0].get("msg"))
+        return
+    cs = cu.summary
+    ctx.log("custom back end: %d polls of the real poll loop (%d refused documents), %d transitions = %d lookups (%d routed), %d failed, %.0fs"
+            % (cs["polls"], cs["refused"], cs["lines"], cs["lookups"], cs["routed"], cs["fails"], cu.wall))
+    if cs["refused"] == 0 or cs["routed"] == 0:
+        ctx.inconclusive("C03 custom back end replay is vacuous")
+        return
+    ctx.cover("custom", traces_validated_against_impl=cs["lines"], evaluations=cs["lookups"])
+    ctx.take_failures(cu, "c03-custom")
+
     # 4. binding self-test: corrupted expectations must be rejected by the harness
     uni, victim = None, None
     with open(cases) as fh:
@@ -220,6 +245,9 @@ def replay(ctx, rp):
     case = rp["replay"]["case"]
     one = os.path.join(ctx.tmp, "c03.replay")
     vf.write_ndjson(one, [case])
+    if rp["replay"].get("sub") == "c03-custom":
+        ctx.inconclusive("a custom-back-end violation is re-examined by running the check again (bin/check C03): it depends on the poll history")
+        return
     if rp["replay"].get("sub") == "c03-admin":
         r = ctx.gotest("admin/api", ["admin/api/c03_test.go"], "^TestVerifC03Admin$", env={"VERIF_IN": one}, timeout=600)
         if not ctx.need_go_ok(r, "C03 admin-observer replay"):
